@@ -121,6 +121,31 @@ Definition set_kids (f : frag) (k : list frag) : frag :=
   match f with FBlk st i y mt mb pt pb bt bb h _ => FBlk st i y mt mb pt pb bt bb h k | _ => f end.
 
 (* find_earlier_page_break on the children of a fragment *)
+Section FeGo.
+Variable fe : frag -> option (list frag * skip).
+(* scan the block children right to left for the last allowed break *)
+Fixpoint fe_go (l : list frag) : option (list frag * skip) :=
+  match l with
+  | [] => None
+  | ch :: rest =>
+      match fe_go rest with
+      | Some (kept, res) => Some (ch :: kept, res)
+      | None =>
+          let inside :=
+            if negb (avoid (frag_st_bi ch)) then
+              match fe ch with
+              | Some (ngc, res) => Some ([set_kids ch ngc], SChild (frag_index ch) (Some res))
+              | None => None end
+            else None in
+          match rest with
+          | p :: _ =>
+              let pbv := fold_breaks (before_chain (Some ch) ++ after_chain_frag p) in
+              if negb (avoid pbv) then Some ([ch], SChild (frag_index p) None) else inside
+          | [] => inside
+          end
+      end
+  end.
+End FeGo.
 Fixpoint find_earlier_f (f : frag) : option (list frag * skip) :=
   match f with
   | FLine _ _ _ _ _ _ => None
@@ -131,28 +156,7 @@ Fixpoint find_earlier_f (f : frag) : option (list frag * skip) :=
           if (length kids <? w)%nat || (index <? o)%nat then None else
           let newc := firstn index kids in
           Some (newc, SChild 0 (match last_resume newc with Some n => Some (SLine n) | None => None end))
-      | _ =>
-        (fix go (l : list frag) : option (list frag * skip) :=
-           match l with
-           | [] => None
-           | ch :: rest =>
-               match go rest with
-               | Some (kept, res) => Some (ch :: kept, res)
-               | None =>
-                   let inside :=
-                     if negb (avoid (frag_st_bi ch)) then
-                       match find_earlier_f ch with
-                       | Some (ngc, res) => Some ([set_kids ch ngc], SChild (frag_index ch) (Some res))
-                       | None => None end
-                     else None in
-                   match rest with
-                   | p :: _ =>
-                       let pbv := fold_breaks (before_chain (Some ch) ++ after_chain_frag p) in
-                       if negb (avoid pbv) then Some ([ch], SChild (frag_index p) None) else inside
-                   | [] => inside
-                   end
-               end
-           end) kids
+      | _ => fe_go find_earlier_f kids
       end
   end.
 Definition find_earlier (children : list frag) : option (list frag * skip) :=
@@ -259,6 +263,25 @@ Definition blk_step (c : ctx) (rec : rec_t) (child : box) (cst : style) (is_root
       end
   end.
 
+(* the loop of block_container_layout over the children, from child number [toskip] on *)
+Section KidsLoop.
+Variable stepf : box -> nat -> option skip -> lstate -> sout.
+Fixpoint kids_loop (kids : list box) (index toskip : nat) (sub : option skip) (s : lstate) {struct kids} : lout :=
+  match kids with
+  | [] => LDone false None s
+  | child :: rest =>
+      match toskip with
+      | S n => kids_loop rest (S index) n sub s
+      | O =>
+        match stepf child index sub s with
+        | SAbort Ofin => LAbort Ofin
+        | SStop r s' => LDone true r s'
+        | SCont s' => kids_loop rest (S index) O None s'
+        end
+      end
+  end.
+End KidsLoop.
+
 (* what block_container_layout does after its loop over the children *)
 Definition finish_blk (c : ctx) (st : style) (is_root pie cwc : bool) (pos_y1 mt0 pt bt bottom_space : Z) (lo : lout) : lret :=
   let mb := s_mb st in let pb := s_pb st in let bb := s_bb st in
@@ -311,26 +334,12 @@ Fixpoint bcl (c : ctx) (b : box) (pos_y mt bottom_space : Z) (sk : option skip) 
       let position_y0 := if cwc then pos_y else pos_y1 + mt + bt + pt in
       let skn := match sk with Some (SChild i _) => i | _ => 0%nat end in
       let sub0 := match sk with Some (SChild _ s) => s | _ => None end in
-      let loop :=
-        fix loop (kids : list box) (index toskip : nat) (sub : option skip) (s : lstate) {struct kids} : lout :=
-          match kids with
-          | [] => LDone false None s
-          | child :: rest =>
-              match toskip with
-              | S n => loop rest (S index) n sub s
-              | O =>
-                match (match child with
-                       | Lines ids => lines_step c st pb bb pie bottom_space ids index sub s
-                       | Blk cst _ _ => blk_step c (bcl c child) child cst is_root pie bottom_space index sub s
-                       end) with
-                | SAbort Ofin => LAbort Ofin
-                | SStop r s' => LDone true r s'
-                | SCont s' => loop rest (S index) O None s'
-                end
-              end
-          end in
       finish_blk c st is_root pie cwc pos_y1 mt pt bt bottom_space
-                 (loop kids 0%nat skn sub0 (mkLS position_y0 cur0 cwc O0 None [] mt dbd0))
+                 (kids_loop (fun (child : box) (index : nat) (sub : option skip) (s : lstate) =>
+                     match child with
+                     | Lines ids => lines_step c st pb bb pie bottom_space ids index sub s
+                     | Blk cst _ _ => blk_step c (bcl c child) child cst is_root pie bottom_space index sub s
+                     end) kids 0%nat skn sub0 (mkLS position_y0 cur0 cwc O0 None [] mt dbd0))
   end.
 
 (* ---------- page loop (remake_page / make_all_pages, without re-pagination) ---------- *)
